@@ -160,17 +160,18 @@ def gen_witness(tier, rng):
             out.append(" ; ".join([str(prec), "|".join(decls)] + posts + ["solve", "to 400"]))
     return out
 
-C07_CLASSES = ("float_intlin_single", "float_cmp_intlin", "mixed_strict_int_succ", "floatlineq_mixed")
+C07_CLASSES = ("floatlineq_mixed",)      # float_intlin_single / float_cmp_intlin / bisect_stall / mixed_strict_int_succ were repaired in /repo
 def judge(line, impl, spec):
     if impl.startswith("err NoSolution"):
         return "solve answered NoSolution on a model built around a robust witness"
     if impl.startswith("CRASH") or impl == "HANG":
         return "solve did not return: the harness process died (address space capped at 2.5 GB) -- %s" % impl[:60]
     return None
-def stalls(line):
-    """decidable re-statement (f64 arithmetic = python floats) of the bisection stall for ONE unconstrained float variable
-    [lo, hi] with step s: following the engine (left child first), some interval on the leftmost path is not assigned
-    (round((max-min)/s) > 1) while try_set_max(mid) is a no-op (mid >= max - s/2), mid = min + round(((min+(max-min)/2)-min)/s)*s"""
+def stalls_prefix(line):
+    """HISTORICAL (before the repair of FloatInterval::mid): decidable re-statement (f64 arithmetic = python floats) of the
+    bisection stall for ONE unconstrained float variable [lo, hi] with step s: on the leftmost path some interval is not assigned
+    (round((max-min)/s) > 1) while try_set_max(mid) is a no-op (mid >= max - s/2).  It agreed with the unrepaired implementation
+    on every generated case (9 of 150); kept so that the family keeps generating exactly those widths."""
     import math
     def rnd(x): return math.floor(x + 0.5) if x >= 0 else -math.floor(-x + 0.5)
     case = fm.Case(line)
@@ -180,19 +181,14 @@ def stalls(line):
         if rnd((hi - lo) / s) <= 1: return False
         mid = lo + rnd(((lo + (hi - lo) / 2.0) - lo) / s) * s
         mid = min(max(mid, lo), hi)
-        if not (mid < hi - s / 2.0): return True          # left child changes nothing
+        if not (mid < hi - s / 2.0): return True
         nm = math.floor(mid / s) * s
         if nm < lo: nm = lo
         if nm == hi: return True
         hi = nm
     return False
 def classify(line, impl, cls):
-    if impl.startswith("CRASH") or impl == "HANG":
-        case = fm.Case(line)
-        # one unconstrained variable: the decidable predicate `stalls` (agrees with the implementation on every generated case);
-        # models with constraints: by symptom (no other cause of a non-returning solve is known)
-        return "bisect_stall" if (stalls(line) or case.rows) else None
-    if not impl.startswith("err NoSolution"):
+    if not (impl.startswith("err NoSolution") or impl.startswith("CRASH") or impl == "HANG"):
         return cls
     case = fm.Case(line)
     cs = [fm.row_class(case, r) for r in case.rows]
